@@ -586,3 +586,7 @@ def kids_spec(m, el, start, reverse, tags, no_iframe):
         return []
     seq = c[idx_::-1] if reverse else c[idx_:]
     return [x for x in seq if not tags or isinstance(x, bs4.Tag)]
+
+
+def desc_spec(m, el, tags, no_iframe):
+    return [c for c in descendants(m, el, no_iframe) if not tags or isinstance(c, bs4.Tag)]
